@@ -198,3 +198,37 @@ def run_impl(scenarios: list, shard=400, script='scn.py'):
         for r in ex.map(lambda c: impl.run_impl(script, c), shards):
             out += r
     return out
+
+
+def cbstep(b) -> str:
+    if b[0] == 'use': return f'(BUse {b[1]}%nat)'
+    if b[0] == 'wraps': return f'(BWraps {b[1]}%nat)'
+    if b[0] == 'plain': return f'(BPlain {b[1]}%nat)'
+    if b[0] == 'chain': return '(BChain [' + '; '.join(f'{c}%nat' for c in b[1]) + '])'
+    raise ValueError(b)
+
+
+def citem_obj(cid, it) -> str:
+    """contract objects of a composition scenario: the validator identity is the contract id"""
+    k = it[0]
+    if k in ('pre', 'post', 'ensure'): return citem([k, dict(it[1], id=cid)])
+    if k == 'raises': return citem(['raises', cid, it[2], it[3], it[4]])
+    if k == 'reason': return citem(['reason', it[1], dict(it[2], id=cid)])
+    if k == 'has': return citem(['has', cid, it[2], it[3], it[4]])
+    raise ValueError(k)
+
+
+def coscenario(sc) -> str:
+    cs = '; '.join(f'({cid}%nat, {citem_obj(cid, it)})' for cid, it in sc['contracts'])
+    fs = ';\n   '.join('{| of_name := %s; of_kind := KSync; of_sig := %s; of_body := %s; of_build := [%s] |}' % (
+        q(f['name']), csig(f['sig']), cblock(f['body']), '; '.join(cbstep(b) for b in f['build'])) for f in sc['funs'])
+    qs = '; '.join(f'({q(a)}, {q(b)})' for a, b in sc.get('queries', []))
+    return ('{| os_contracts := [' + cs + '];\n   os_funs := [' + fs + '];\n   os_driver := [' +
+            '; '.join(caction(a) for a in sc['driver']) + f'];\n   os_queries := [{qs}] |}}')
+
+
+OBJ_PREAMBLE = PREAMBLE.replace('Scenario.', 'Scenario ObjModel ScnObj.')
+
+
+def run_model_obj(name, scenarios):
+    return run_model(name, scenarios, show='show_oscenario', preamble=OBJ_PREAMBLE, printer=coscenario)
